@@ -256,5 +256,5 @@ def run(ctx, rep):
         cp = call_blocks(rb, r"std::io::copy$")
         rep.check("C10.copy", "new blocks are written before the remaining stream is appended", len(wb) == 1 and len(cp) == 1 and rb.dominates(wb[0][0], cp[0][0]), loc_of(rb))
         # everything assembled is written: write_all of the assembled buffer inside the and_then closure
-        wa = [1 for c in F.closures_of(rb) for _, t in c.calls() if re.search(r"Write::write_all$", callee_name(t))]
+        wa = [1 for c in [rb] + F.closures_of(rb) for _, t in c.calls() if re.search(r"Write::write_all$", callee_name(t))]
         rep.check("C10.copy", "assembled buffer written with write_all", len(wa) == 1, loc_of(rb))
